@@ -28,7 +28,11 @@ def gen_container(rng, depth=0, maxdepth=3, cx=False, top=True):
     if k <= 5:
         elems = [gen_container(rng, depth + 1, maxdepth, cx, False) for _ in range(arity)]
         return tuple(elems) if k % 2 == 0 else elems
-    keys = (["a", "b", "c", "dd"] if rng.uniform() < 0.7 else [0, 3, 7, 11])[:arity]
+    # key pools: strings; ints that are not positions; ints that ARE valid (negative / permuted) positions of
+    # the dict's own length, so a rule that treats a key as a sequence index lands on another entry; tuples
+    u_ = rng.uniform()
+    pool = ["a", "b", "c", "dd"] if u_ < 0.5 else [0, 3, 7, 11] if u_ < 0.65 else [-1, 1, 0, -2] if u_ < 0.8 else [2, 0, 3, 1] if u_ < 0.9 else [(0, 1), (1, 0), (0, 0), (2,)]
+    keys = pool[:arity]
     if rng.uniform() < 0.6:
         # insertion order is not the sorted order
         keys = [keys[int(t)] for t in rng.permutation(len(keys))]
